@@ -55,8 +55,9 @@ def SPUR(g):
     return dict(k='spur', g=g)
 
 
-def DROP(o):
-    return dict(k='drop_obj', o=o)
+def DROP(o, unwinding=False):
+    """drops the (last) owner; unwinding: the dropping thread is unwinding from a panic (Drop then uses sync_no_panic)"""
+    return dict(k='drop_obj', o=o, then='unwinding') if unwinding else dict(k='drop_obj', o=o)
 
 
 def SU(o, then='keep', label=None):
@@ -228,6 +229,11 @@ def drop_families(pools=(0, 1)):
         out.append(make('D_DROP_p%d' % p, 1, p, 0, [D(1), DROP(1)]))
         out.append(make('DD_DROP_S_p%d' % p, 2, p, 0, [D(1), D(1), DROP(1)], [S(2)]))
         out.append(make('FDdet_DROP_Fire_p%d' % p, 1, p, 1, [FD(1, aw=[1], then='detach'), DROP(1)], [FIRE(1)]))
+    # the last owner is dropped by a thread that is unwinding from a panic (Drop for Desync then takes the sync_no_panic path)
+    for p in pools:
+        out.append(make('DD_DROPunw_p%d' % p, 1, p, 0, [D(1), D(1), DROP(1, unwinding=True)]))
+        out.append(make('FD_DROPunw_Fire_p%d' % p, 1, p, 1, [FD(1, aw=[1], then='detach'), DROP(1, unwinding=True)], [FIRE(1)]))
+        out.append(make('FD_D_DROPunw_Fire_p%d' % p, 1, p, 1, [FD(1, aw=[1], then='detach'), D(1), DROP(1, unwinding=True)], [FIRE(1)]))
     for p in (1, 2):
         out.append(make('DROPfromjob_p%d' % p, 2, p, 0, [D(1), D(2, body=[DROP(1)])], [S(2)]))
         out.append(make('FDdet_D_DROP_Fire_p%d' % p, 1, p, 1, [FD(1, aw=[1], then='detach'), D(1), DROP(1)], [FIRE(1)]))
@@ -279,6 +285,9 @@ def panic_families(pools=(1, 2)):
         out.append(make('FDpanic_aw_later_p%d' % p, 2, p, 1, [FD(1, aw=[1], then='await', panic=True), S(1), D(2), S(2)], [FIRE(1)]))
         out.append(make('steal_panic_p%d' % p, 2, p, 0, [S(1)], [D(1, panic=True), S(1), S(1)], [T(1), D(2), S(2)]))
         out.append(make('Tpanic_later_p%d' % p, 1, p, 0, [T(1, panic=True), S(1), D(1)]))
+        # the owner of the panicked object is dropped by a thread that is itself unwinding: no second panic, the healthy object is unaffected
+        out.append(make('Dpanic_S_DROPunw_p%d' % p, 2, p, 0, [D(1, panic=True), S(1), DROP(1, unwinding=True), D(2), S(2)]))
+        out.append(make('Spanic_DROPunw_Db_p%d' % p, 2, p, 0, [S(1, panic=True), DROP(1, unwinding=True), S(2)], [D(2)]))
     out.append(make('steal_panic_p0', 1, 0, 0, [S(1)], [D(1, panic=True), S(1), S(1)], [T(1)]))
     out.append(make('capacity_p1', 3, 1, 0, [D(1, panic=True), S(1), D(2), D(3), S(2), S(3)]))
     out.append(make('FSpanic_later_p1', 1, 1, 0, [FS(1, then='await', panic=True), S(1), D(1)]))
